@@ -22,7 +22,7 @@ public:
           boxCenter(inBoxCenter),
           boxCorner(TbfUtils::AddVecToVec(inBoxCenter, TbfUtils::MulToVec(inBoxWidths, -RealType(1)/RealType(2)))),
           boxWidths(inBoxWidths),
-          boxWidthsAtLeafLevel(TbfUtils::MulToVec(inBoxWidths, RealType(1)/RealType(1<<(inTreeHeight-1)))){
+          boxWidthsAtLeafLevel(TbfUtils::MulToVec(inBoxWidths, RealType(1)/RealType(1L<<(inTreeHeight-1)))){
     }
 
     TbfSpacialConfiguration(const TbfSpacialConfiguration&) = default;
